@@ -183,3 +183,34 @@ Proof.
     destruct Ie as [<-|[]], If as [<-|[]]. apply Hef. reflexivity.
 Qed.
 End Tables.
+
+(* ---- CSR layout (IndexList(indices, indexptr)) of element_neighbors / vertex_neighbors ---------------------------
+   the library stores the rows concatenated with indexptr[i] = total length of the rows before i *)
+Definition csr_indices (rows : list (list nat)) : list nat := concat rows.
+Fixpoint csr_indexptr (acc : nat) (rows : list (list nat)) : list nat :=
+  match rows with [] => [acc] | r :: t => acc :: csr_indexptr (acc + length r) t end.
+Fixpoint ldrop {A} (k : nat) (l : list A) : list A :=
+  match k, l with 0, _ => l | S k', [] => [] | S k', _ :: t => ldrop k' t end.
+Definition lslice {A} (a b : nat) (l : list A) : list A := firstn (b - a) (ldrop a l).
+
+Lemma ldrop_app {A} (a l : list A) k : ldrop (length a + k) (a ++ l) = ldrop k l.
+Proof. induction a; cbn; auto. Qed.
+
+Lemma ldrop_app0 {A} (a l : list A) : ldrop (length a) (a ++ l) = l.
+Proof. induction a; cbn; auto. Qed.
+Lemma firstn_exact {A} (a l : list A) : firstn (length a) (a ++ l) = a.
+Proof. induction a as [|x a IH]; cbn; [reflexivity|f_equal; exact IH]. Qed.
+
+Theorem csr_rows rows : forall acc pre i, length pre = acc -> i < length rows ->
+  length (csr_indexptr acc rows) = S (length rows) /\
+  lslice (nth i (csr_indexptr acc rows) 0) (nth (S i) (csr_indexptr acc rows) 0) (pre ++ csr_indices rows) = nth i rows [].
+Proof.
+  induction rows as [|r t IH]; intros acc pre i Hp Hi; cbn in Hi; [lia|].
+  split; [cbn; destruct t; [reflexivity|]; f_equal; apply (IH (acc + length r) (pre ++ r) 0); [rewrite app_length; lia|cbn; lia]|].
+  destruct i as [|i].
+  - cbn [csr_indexptr nth]. assert (X : nth 0 (csr_indexptr (acc + length r) t) 0 = acc + length r) by (destruct t; reflexivity).
+    rewrite X. unfold lslice, csr_indices. cbn [concat]. rewrite <- Hp.
+    rewrite ldrop_app0. replace (length pre + length r - length pre) with (length r) by lia. apply firstn_exact.
+  - cbn [csr_indexptr nth]. unfold csr_indices. cbn [concat]. rewrite app_assoc.
+    apply (IH (acc + length r) (pre ++ r) i); [rewrite app_length; lia|lia].
+Qed.
